@@ -402,9 +402,9 @@ fn canary_state() {
 
 //@thorough-begin
 /// bounded cross-check: all op sequences of length 4 over a pool of two handle slots
-//@ prefix=b_history kind=property clause=bounded histories (4 symbolic ops over 2 slots): strong count equals number of live non-empty handles, value dropped exactly at the last
+//@ prefix=b_history kind=property clause=bounded histories (5 symbolic ops over 2 slots): strong count equals number of live non-empty handles, value dropped exactly at the last
 #[kani::proof]
-#[kani::unwind(6)]
+#[kani::unwind(7)]
 fn b_history() {
     let v: u32 = kani::any();
     let arc = Arc::new(D::new(v));
@@ -413,7 +413,7 @@ fn b_history() {
     let mut b: CArc<D> = CArc::default();
     let mut live: usize = 1;
     let mut i = 0;
-    while i < 4 {
+    while i < 5 {
         let op: u8 = kani::any();
         kani::assume(op < 7);
         match op {
